@@ -30,6 +30,10 @@ type Engine struct {
 	cs       *ContractSet
 	files    []string // contract files read
 	loadSecs float64
+
+	initOnly          map[*ssa.Global]bool
+	storedOutsideInit map[*ssa.Global]bool
+	scanned           map[*ssa.Function]bool
 }
 
 func (e *Engine) pkgOf(path string) *types.Package {
@@ -346,4 +350,108 @@ func (e *Engine) findFunction(fc *FuncContract) *ssa.Function {
 		}
 	}
 	return nil
+}
+
+// initOnlyGlobals: package-level variables that are assigned only in package initialisation.
+func (e *Engine) initOnlyGlobal(g *ssa.Global) bool {
+	if e.initOnly == nil {
+		e.initOnly = map[*ssa.Global]bool{}
+		e.storedOutsideInit = map[*ssa.Global]bool{}
+		for _, p := range e.prog.AllPackages() {
+			for _, m := range p.Members {
+				fn, ok := m.(*ssa.Function)
+				if !ok {
+					continue
+				}
+				e.scanGlobalStores(fn)
+			}
+			// methods
+			for _, m := range p.Members {
+				if t, ok := m.(*ssa.Type); ok {
+					for _, typ := range []types.Type{t.Type(), types.NewPointer(t.Type())} {
+						ms := e.prog.MethodSets.MethodSet(typ)
+						for i := 0; i < ms.Len(); i++ {
+							if f := e.prog.MethodValue(ms.At(i)); f != nil {
+								e.scanGlobalStores(f)
+							}
+						}
+					}
+				}
+			}
+		}
+	}
+	return !e.storedOutsideInit[g]
+}
+
+func (e *Engine) scanGlobalStores(fn *ssa.Function) {
+	if fn == nil || fn.Blocks == nil || e.scanned[fn] {
+		return
+	}
+	if e.scanned == nil {
+		e.scanned = map[*ssa.Function]bool{}
+	}
+	e.scanned[fn] = true
+	isInit := fn.Name() == "init" || strings.HasPrefix(fn.Name(), "init#")
+	for _, b := range fn.Blocks {
+		for _, in := range b.Instrs {
+			if s, ok := in.(*ssa.Store); ok && !isInit {
+				if g, ok := s.Addr.(*ssa.Global); ok {
+					e.storedOutsideInit[g] = true
+				}
+			}
+			// address taken (passed around): treat as possibly stored
+			if !isInit {
+				for _, op := range in.Operands(nil) {
+					if g, ok := (*op).(*ssa.Global); ok {
+						switch u := in.(type) {
+						case *ssa.UnOp:
+							_ = u
+						case *ssa.Store:
+							if u.Addr != g {
+								e.storedOutsideInit[g] = true
+							}
+						case *ssa.DebugRef:
+						default:
+							e.storedOutsideInit[g] = true
+						}
+					}
+				}
+			}
+		}
+	}
+	for _, af := range fn.AnonFuncs {
+		e.scanGlobalStores(af)
+	}
+}
+
+// initFromErrorsNew: the package initialiser stores the result of errors.New / fmt.Errorf into g.
+func (e *Engine) initFromErrorsNew(g *ssa.Global) bool {
+	if g.Pkg == nil {
+		return false
+	}
+	init := g.Pkg.Func("init")
+	if init == nil || init.Blocks == nil {
+		return false
+	}
+	for _, b := range init.Blocks {
+		for _, in := range b.Instrs {
+			s, ok := in.(*ssa.Store)
+			if !ok || s.Addr != g {
+				continue
+			}
+			v := s.Val
+			if mi, ok := v.(*ssa.MakeInterface); ok {
+				v = mi.X
+			}
+			if call, ok := v.(*ssa.Call); ok {
+				if f := call.Call.StaticCallee(); f != nil {
+					n := f.String()
+					if n == "errors.New" || n == "fmt.Errorf" {
+						return true
+					}
+				}
+			}
+		}
+	}
+	return false
 }
